@@ -260,6 +260,24 @@ def run_shard(ctx):
             ctx.violation("malformed-or-bleeding-sequence", {"err": str(err), "out": str(res)[:80]}, case)
         if CHText.strip_colors(str(res)) != res.plain_text() or res.plain_text() != "".join(c for c, _ in model):
             ctx.violation("strip-colors-leaves-sequences", {"stripped": CHText.strip_colors(str(res))[:80]}, case)
+        # a chunk is walked character by character (a loop, the constructor's argument list, a join): every piece is
+        # one character of the chunk with the chunk's look
+        c0, text0, want0 = chunks[0]
+        if 0 < len(text0) <= 12:
+            ctx.count("chunks_walked_character_by_character")
+            try:
+                walked = sgr.cells("".join(str(piece) for piece in c0))
+                rebuilt = sgr.cells(str(CHText(*c0)))
+                spaced = sgr.cells(str(CHText("-").join(c0)))
+                wmodel = [(ch, want0) for ch in text0]
+                smodel = [x for k, ch in enumerate(text0) for x in ([("-", sgr.DEFAULT)] if k else []) + [(ch, want0)]]
+                if walked != wmodel or rebuilt != wmodel or spaced != smodel:
+                    ctx.violation("pieces-of-a-chunk-show-something-else", {"text": text0, "walked": str(walked)[:80],
+                                                                            "joined": str(spaced)[:80]}, case)
+            except sgr.SgrError as err:
+                ctx.violation("malformed-or-bleeding-sequence", {"err": str(err), "walk": True}, case)
+            except Exception as err:
+                ctx.violation("walking-a-chunk-raises", {"type": type(err).__name__, "msg": str(err)[:100]}, case)
         if len(chunks) <= 5:
             # the same chunks handed to the list constructor the package's own printers use, with chunks of
             # empty text (in other colours) in between: they show nothing and colour nothing
